@@ -265,7 +265,9 @@ func (w *world) observe(ci *callInfo) {
 		if o := cur[op.RegionID()]; o != nil && o != t {
 			tt := t
 			report("two-running-operators-for-one-region", fmt.Sprintf("GetOperators() lists two operators for region %d after %s", op.RegionID(), ci.name),
-				w.phase, len(tt.g.log)-tt.logAt, func() map[string]interface{} { return w.opWitness(tt, map[string]interface{}{"other": o.id, "call": ci.name}) })
+				w.phase, len(tt.g.log)-tt.logAt, func() map[string]interface{} {
+					return w.opWitness(tt, map[string]interface{}{"other": o.id, "call": ci.name})
+				})
 		}
 		cur[op.RegionID()] = t
 	}
